@@ -501,25 +501,23 @@ func staleDecodeTargets(r *core.Run, rule string, funcs []*ssa.Function) {
 				tgt = mi.X
 			}
 			n++
-			fv, isFree := tgt.(*ssa.FreeVar)
-			if !isFree {
-				r.Trivial(rule, core.FnName(fn)+":decode-target-fresh", p.InstrPos(call), "decodes into a variable local to this invocation")
+			why := "the generated proto decoder neither resets the target nor clears fields that are absent on the wire: repeated fields are appended to and empty scalar fields keep the value of the previous record"
+			if fv, isFree := tgt.(*ssa.FreeVar); isFree {
+				if _, ok := derefStruct(fv.Type()); ok {
+					r.Violation(rule, core.FnName(fn)+":decode-target-reused:"+core.TypeName(fv.Type()), p.InstrPos(call), "a record is decoded into a variable captured from the enclosing function: "+why+" (e.g. the prover list of all earlier files)")
+				} else {
+					r.Trivial(rule, core.FnName(fn)+":decode-target-fresh", p.InstrPos(call), "captured non-struct target")
+				}
 				return
 			}
-			// repeated fields?
-			hasRepeated := false
-			if st, ok := derefStruct(fv.Type()); ok {
-				for i := 0; i < st.NumFields(); i++ {
-					if _, isSlice := st.Field(i).Type().Underlying().(*types.Slice); isSlice && st.Field(i).Type().String() != "[]byte" {
-						hasRepeated = true
-					}
+			// a target allocated outside the loop that decodes into it is reused across iterations
+			if al, isAlloc := tgt.(*ssa.Alloc); isAlloc && core.InCycle(call.Block()) && !core.SameLoop(al.Block(), call.Block()) {
+				if _, ok := derefStruct(al.Type()); ok {
+					r.Violation(rule, core.FnName(fn)+":decode-target-reused:"+core.TypeName(al.Type()), p.InstrPos(call), "a record is decoded, inside a loop, into a variable declared outside the loop: "+why)
+					return
 				}
 			}
-			if hasRepeated {
-				r.Violation(rule, core.FnName(fn)+":decode-target-reused:"+core.TypeName(fv.Type()), p.InstrPos(call), "a record is decoded into a variable captured from the enclosing function: proto Unmarshal appends to repeated fields, so from the second record on the decoded value also carries the repeated entries (e.g. the prover list) of all earlier records")
-			} else {
-				r.Trivial(rule, core.FnName(fn)+":decode-target-fresh", p.InstrPos(call), "captured target without repeated fields")
-			}
+			r.Trivial(rule, core.FnName(fn)+":decode-target-fresh", p.InstrPos(call), "decodes into a variable local to this invocation / iteration")
 		})
 	}
 	r.Floor(rule, n, 3, "decode sites on the path")
